@@ -6,7 +6,6 @@ package harness
 
 import (
 	"fmt"
-	"io"
 	"log"
 	"log/slog"
 	"os"
@@ -621,8 +620,9 @@ func planImageRaw(p *workflow.Plan, ids *ider) PlanImg {
 func quietLogs() {
 	// the engine logs through slog/stdlib log to stderr; keep the campaign output readable
 	if os.Getenv("VERIF_VERBOSE") == "" {
-		slog.SetDefault(slog.New(slog.NewTextHandler(io.Discard, nil)))
-		log.SetOutput(io.Discard)
+		// keep errors and fatals (the engine's log.Fatalf kills the process: the parent reports the death)
+		slog.SetDefault(slog.New(slog.NewTextHandler(os.Stderr, &slog.HandlerOptions{Level: slog.LevelError + 1})))
+		log.SetOutput(os.Stderr)
 	}
 }
 
